@@ -37,7 +37,7 @@ Print Assumptions c16_render_any_compilation_guarded.
    statement was last evicted ([gov_flag]) *)
 Theorem c16_cache_history_transparent_guarded : forall quote dflt stmts,
   (forall sid, stmt_ok quote (stmts sid) = true) ->
-  forall pre sid m post, op_ok quote stmts (Exec sid m) = true ->
+  forall pre sid m post, op_ok stmts (Exec sid m) = true ->
   nth (length pre) (run_hist quote dflt stmts [] (pre ++ Exec sid m :: post)) None
   = Some (spec_exec quote dflt (gov_flag stmts pre sid m) m (stmts sid)).
 Proof. exact history_exec. Qed.
@@ -47,7 +47,7 @@ Print Assumptions c16_cache_history_transparent_guarded.
    execution yields the directly translated construct, whatever the cache holds *)
 Theorem c16_consistent_history_is_direct_guarded : forall quote dflt stmts,
   (forall sid, stmt_ok quote (stmts sid) = true) ->
-  forall pre sid m post, op_ok quote stmts (Exec sid m) = true ->
+  forall pre sid m post, op_ok stmts (Exec sid m) = true ->
   forallb (agrees sid (has_none m)) pre = true ->
   nth (length pre) (run_hist quote dflt stmts [] (pre ++ Exec sid m :: post)) None
   = Some (spec_exec quote dflt (has_none m) m (stmts sid)).
@@ -62,7 +62,7 @@ Print Assumptions c16_spec_consistent_is_direct.
 (* DDL is compiled on every execution: always the translated construct *)
 Theorem c16_ddl_history_guarded : forall quote dflt stmts,
   (forall sid, stmt_ok quote (stmts sid) = true) ->
-  forall pre sid m post, op_ok quote stmts (Ddl sid m) = true ->
+  forall pre sid m post, op_ok stmts (Ddl sid m) = true ->
   nth (length pre) (run_hist quote dflt stmts [] (pre ++ Ddl sid m :: post)) None
   = Some (spec_exec quote dflt (has_none m) m (stmts sid)).
 Proof. exact history_ddl. Qed.
@@ -83,8 +83,8 @@ Theorem c16_scan_marker_free_text : forall repl t, occurs marker t = false -> sc
 Proof. exact scan_plain. Qed.
 Print Assumptions c16_scan_marker_free_text.
 
-(* the alias  d["_none"] = d[None]  that rendering writes into the caller's dict is harmless for later
-   executions with that dict (or a copy) as long as it still has a None key: the current None entry wins *)
+(* an entry "_none" in a map that also has a None key is never consulted: the current None entry wins.
+   (Before fix a436594 rendering wrote such an entry into the CALLER's dict; it is now made in a copy.) *)
 Theorem c16_stale_alias_ignored : forall quote dflt d v name, has_none d = true ->
   replace quote dflt ((Some none_name, v) :: d) name = replace quote dflt d name.
 Proof. exact stale_alias_ignored. Qed.
@@ -138,24 +138,25 @@ Proof. exists wq, wmain, w_xy, w_forced, w_txt0.
   vm_compute. repeat split; discriminate. Qed.
 Print Assumptions c16_quote_flag_lost_refuted.
 
-(* ---- a pre-executed SQL default (DefaultExecutionContext._exec_default_clause_element) is compiled
-   without the map: it is emitted untranslated ---- *)
-Theorem c16_scalar_default_untranslated_guarded : forall quote dflt stmts pre sid dsid m post, op_ok quote stmts (ScalarDefault sid dsid m) = true ->
+(* ---- a pre-executed SQL default (DefaultExecutionContext._exec_default_clause_element) is compiled with
+   the map in effect (fix d3878ef) and rendered by _execute_scalar: it is emitted translated, whatever the
+   cache holds for the parent statement; only the "None now present" check is the parent's ---- *)
+Theorem c16_scalar_default_translated_guarded : forall quote dflt stmts,
+  (forall sid, stmt_ok quote (stmts sid) = true) ->
+  forall pre sid dsid m post, op_ok stmts (ScalarDefault sid dsid m) = true ->
   nth (length pre) (run_hist quote dflt stmts [] (pre ++ ScalarDefault sid dsid m :: post)) None
-  = Some (spec_scalar_default quote (gov_flag stmts pre sid m) m (stmts sid) (stmts dsid)).
+  = Some (spec_scalar_default quote dflt (gov_flag stmts pre sid m) m (stmts sid) (stmts dsid)).
 Proof. exact history_scalar_default. Qed.
-Print Assumptions c16_scalar_default_untranslated_guarded.
+Print Assumptions c16_scalar_default_translated_guarded.
 Theorem c16_untranslated_is_direct : forall quote dflt m s, untranslated m s = true ->
   direct quote dflt m s = Ok (compile_plain quote s).
 Proof. exact direct_untranslated. Qed.
 Print Assumptions c16_untranslated_is_direct.
-Theorem c16_scalar_default_refuted : exists quote dflt stmts sid dsid m,
-  (forall sid, stmt_ok quote (stmts sid) = true) /\ op_ok quote stmts (ScalarDefault sid dsid m) = true /\
-  nth 0 (run_hist quote dflt stmts [] [ScalarDefault sid dsid m]) None
-  <> Some (direct quote dflt m (stmts dsid)).
-Proof. exists wq, wmain, w_stmts, 1%nat, 2%nat, w_ab.
-  split; [intros [|[|[|[|n]]]]; vm_compute; reflexivity|]. vm_compute. split; [reflexivity|discriminate]. Qed.
-Print Assumptions c16_scalar_default_refuted.
+(* formerly c16_scalar_default_refuted: the default's SELECT is now the directly translated construct *)
+Example c16_ex_scalar_default_translated :
+  nth 0 (run_hist wq wmain w_stmts [] [ScalarDefault 1 2 w_ab]) None = Some (direct wq wmain w_ab (w_stmts 2)) /\
+  direct wq wmain w_ab (w_stmts 2) = Ok w_txt_default.
+Proof. vm_compute. split; reflexivity. Qed.
 
 (* ---- non-vacuity ---- *)
 (* a chained map a -> b -> c does not cascade; the table() clause keeps its schema; None -> n *)
